@@ -433,7 +433,7 @@ func TestC20(t *testing.T) {
 	on := func(m string) bool { return modes == "" || strings.Contains(modes, m) }
 	total := 0
 	if on("seq") {
-		n := r.N(240, 4000)
+		n := r.N(200, 4000)
 		total += n
 		r.Cases(n, 0, func(idx int) { runSequential(r, idx) })
 	}
@@ -448,7 +448,7 @@ func TestC20(t *testing.T) {
 	if on("poll") {
 		n := r.N(12, 100)
 		if r.Race {
-			n = max(n, 3)
+			n = max(n, 2)
 		}
 		total += n
 		r.Cases(n, 4, func(idx int) { runPoller(r, idx) })
